@@ -280,6 +280,9 @@ func CheckFaithful(d *GDoc, pb lib.PBus) []finding {
 		checkAttrs(where, ekey{kind: 2, msg: m.ID}, pm.Attrs)
 		// well-known message attributes land in the dedicated fields
 		for name, v := range expAsg[ekey{kind: 2, msg: m.ID}] {
+			if v.Form == 2 && name == "GenMsgSendType" && pm.SendType != indexOf(msgSendTypes, v.S) {
+				add("c10-wellknown-msg-send-type", "%s: GenMsgSendType %q (written as a string), SendType() %d", where, v.S, pm.SendType)
+			}
 			if v.Form != 0 {
 				continue
 			}
@@ -300,7 +303,7 @@ func CheckFaithful(d *GDoc, pb lib.PBus) []finding {
 				a := attrs[name]
 				vals := dedup(a.Enum)
 				if int(v.I) < len(vals) && pm.SendType != indexOf(msgSendTypes, vals[v.I]) {
-					add("c10-wellknown-msg-send-type", "%s: GenMsgSendType %q, SendType() %d", where, vals[v.I], pm.SendType)
+					add("c10-wellknown-msg-send-type", "%s: GenMsgSendType %q (index %d of the file's list), SendType() %d", where, vals[v.I], v.I, pm.SendType)
 				}
 			}
 		}
@@ -382,7 +385,10 @@ func CheckFaithful(d *GDoc, pb lib.PBus) []finding {
 					a := attrs[name]
 					vl := dedup(a.Enum)
 					if v.Form == 0 && int(v.I) < len(vl) && ps.SendType != indexOf(sigSendTypes, vl[v.I]) {
-						add("c10-wellknown-sig-send-type", "%s: GenSigSendType %q, SendType() %d", sw, vl[v.I], ps.SendType)
+						add("c10-wellknown-sig-send-type", "%s: GenSigSendType %q (index %d of the file's list), SendType() %d", sw, vl[v.I], v.I, ps.SendType)
+					}
+					if v.Form == 2 && ps.SendType != indexOf(sigSendTypes, v.S) {
+						add("c10-wellknown-sig-send-type", "%s: GenSigSendType %q (written as a string), SendType() %d", sw, v.S, ps.SendType)
 					}
 				}
 			}
